@@ -198,6 +198,15 @@ def gen_world(rng, stream="regular"):
         if batch:
             policy["batch_prob"] = rng.choice([0.5, 0.8, 1.0])
             policy["cancel_prob"] = rng.choice([0.0, 0.0, 0.05])
+        # a policy that takes simulated time to decide (its placements are never before the time it finishes): drawn
+        # from a sub-stream keyed by the world so far, the main stream is not shifted
+        import json as _json
+
+        r4 = common.Rng(0, "sim-policy-runtime/" + _json.dumps([wl, flags, policy], sort_keys=True, default=str))
+        # (not for retracting policies: a decision of theirs may arrive for a task that started during the invocation,
+        # which sends the simulator into its preemption / migration code - outside the simulator model, see C05-SR3)
+        if r4.random() < 0.2 and not policy.get("retract"):
+            policy["runtimes"] = r4.choice([[0, 1, 2], [0, 3, 7], [1, 5, 30], [0, 0, 60]])
     return {"workers": gen_workers(rng), "workload": wl, "flags": flags, "policy": policy, "stream": stream, "max_steps": 3000}
 
 
